@@ -223,7 +223,7 @@ func c18pool(c *Ctx, fn *ssa.Function) {
 	r.Check(lowOK, "FLOW", key+"/destinations", c.InstrPos(ev), "destinations = the underused classes", "destination arguments are not the low / prod-low / both-low classes of classifyNodes")
 
 	// the continue condition closure
-	r.Rule("PATH: the continue-condition closure returns true only after isNodeOverutilized(usage, highThreshold) reported overutilized and no thresholded resource has headroom <= 0")
+	r.Rule("PATH: the continue-condition closure returns true only after isNodeOverutilized(usage, highThreshold) reported overutilized and no thresholded resource has headroom <= 0; every iteration over the thresholded resources reaches the headroom lookup for that resource")
 	var cond *ssa.Function
 	for _, an2 := range fn.AnonFuncs {
 		for _, cl := range an.Calls(an2, false) {
@@ -281,6 +281,28 @@ func c18pool(c *Ctx, fn *ssa.Function) {
 			}
 		}
 		r.Check(!bad, "PATH", key+"/continue-condition/needs-headroom", c.Pos(cond.Pos()), "stops when the headroom of a resource is used up", "the continue-condition can return true although a resource has no headroom left")
+	}
+	// every thresholded resource is tested, whatever the node is overloaded on
+	{
+		var lk *ssa.Lookup
+		for _, b := range cond.Blocks {
+			for _, in := range b.Instrs {
+				if x, ok := in.(*ssa.Lookup); ok && x.CommaOk && strings.Contains(an.Path(x.X), "totalAvailableUsages") {
+					lk = x
+				}
+			}
+		}
+		okAll := false
+		if lk != nil {
+			if hdr := an.InnermostLoopHeader(lk.Block()); hdr != nil {
+				if ifi, isIf := hdr.Instrs[len(hdr.Instrs)-1].(*ssa.If); isIf {
+					body := ifi.Block().Succs[0]
+					rb := an.Explore(cond, &an.Start{Block: body, Index: 0}, nil, func(in ssa.Instruction) bool { return in == ssa.Instruction(lk) })
+					okAll = !rb.BlockReached(hdr) && len(rb.Returns()) == 0
+				}
+			}
+		}
+		r.Check(okAll, "PATH", key+"/continue-condition/every-resource-tested", c.Pos(cond.Pos()), "each thresholded resource reaches the headroom test", "an iteration over the thresholded resources can finish without looking up the remaining headroom of that resource: eviction continues although the underused nodes have no room left for it")
 	}
 	thr := false
 	for _, a := range over.Common().Args {
@@ -394,7 +416,7 @@ func c18anomaly(c *Ctx) {
 		}
 	}
 
-	r.Rule("TYPESTATE(detector): BasicDetector.state is written only in setState; setState(StateAnomaly) is called only from onAbnormalities, either in the already-anomalous arm or under anomalyConditionFn(d.counter)==true; Mark calls onAbnormalities only for normality==false; Counter.ConsecutiveAbnormalities is only ever incremented by one in onAbnormalities and set to zero elsewhere (onNormality, clear)")
+	r.Rule("TYPESTATE(detector): BasicDetector.state is written only in setState; setState(StateAnomaly) is called only from onAbnormalities, either in the already-anomalous arm or under anomalyConditionFn(d.counter)==true; Mark calls onAbnormalities only for normality==false; Counter.ConsecutiveAbnormalities is only ever incremented by one in onAbnormalities and set to zero elsewhere (onNormality, clear); every state change starts a new generation and every new generation clears the counters")
 	stateWriters, consecWriters := map[string]bool{}, map[string]string{}
 	var toAnomaly []ssa.CallInstruction
 	for _, fn := range c.PkgFuncs(anomalyPkg) {
@@ -474,6 +496,33 @@ func c18anomaly(c *Ctx) {
 			why = "not guarded by anomalyConditionFn(d.counter) or by the already-anomalous arm"
 		}
 		r.Check(ok, "TYPESTATE", sprintf("%s/to-anomaly/%s#%d", k, fn.Name(), i), c.InstrPos(cl), "transition to StateAnomaly only under the anomaly condition", "setState(StateAnomaly) is "+why)
+	}
+	if tg := c.Fn(anomalyPkg, "BasicDetector", "toNewGeneration"); tg != nil {
+		reach := an.Explore(tg, nil, nil, func(in ssa.Instruction) bool {
+			cl, ok := in.(ssa.CallInstruction)
+			return ok && an.ShortCallee(cl.Common()) == "clear"
+		})
+		r.Check(len(reach.Returns()) == 0, "TYPESTATE", k+"/new-generation-clears", c.Pos(tg.Pos()), "every new generation starts with cleared counters", "toNewGeneration can return without counter.clear(): abnormal marks counted before a return to the ok state survive it, and the next overloaded round is an anomaly at once")
+	}
+	if ss := c.Fn(anomalyPkg, "BasicDetector", "setState"); ss != nil {
+		okGen := false
+		for _, b := range ss.Blocks {
+			for _, in := range b.Instrs {
+				st, isS := in.(*ssa.Store)
+				if !isS {
+					continue
+				}
+				if _, f, _, ok := an.FieldOf(st.Addr); !ok || f != "state" {
+					continue
+				}
+				reach := an.Explore(ss, an.After(st), nil, func(x ssa.Instruction) bool {
+					cl, ok := x.(ssa.CallInstruction)
+					return ok && an.ShortCallee(cl.Common()) == "toNewGeneration"
+				})
+				okGen = len(reach.Returns()) == 0
+			}
+		}
+		r.Check(okGen, "TYPESTATE", k+"/state-change-starts-generation", c.Pos(ss.Pos()), "a state change always starts a new generation", "setState can change the state without toNewGeneration")
 	}
 	if mark := c.Fn(anomalyPkg, "BasicDetector", "Mark"); mark != nil {
 		ok, n := true, 0
